@@ -1,12 +1,1119 @@
-//! C16: harness not built yet.
+//! C16: TLV codec round-trip and safe rejection of malformed input.
+//!
+//! Case kinds:
+//!  `a <hex>`  byte string -> every public accessor of `TLVElement` / `TLVSequence` / the iterators
+//!             (one op per accessor) on the real code, under `catch_unwind`, iterators capped at
+//!             `len + 2` steps, a watchdog thread turning a stuck call into the output `hang`.
+//!  `w`        value trees: `write <tree>` (real `TLVWrite` on a `WriteBuf`), `iterwrite <tree>`
+//!             (real `TLV::bytes_iter`), `decode <hex>` (tree rebuilt with the public accessors).
+//!  `s <name>` derived wire structures (see `c16_structs.rs`): `enc <fields>` / `dec <hex>`.
+//!
+//! Outputs are canonical: `ok`, `ok:<repr>`, `e:<code>`, `panic`, `hang`.
+use crate::proto::{hex, parse_cases, unhex, Case, Out};
+use crate::rng::Rng;
 use crate::Args;
 
-pub fn gen(_a: &Args) -> String {
-    eprintln!("C16: harness not built yet");
-    std::process::exit(2);
+use std::panic::{catch_unwind, AssertUnwindSafe};
+use std::sync::atomic::{AtomicU64, Ordering};
+use std::sync::Mutex;
+
+use rs_matter::error::{Error, ErrorCode};
+use rs_matter::tlv::{TLVElement, TLVSequence, TLVTag, TLVValue, TLVWrite, ToTLV, TLV};
+use rs_matter::utils::storage::WriteBuf;
+
+#[path = "c16_structs.rs"]
+mod structs;
+
+// ------------------------------------------------------------------ watchdog
+static PROGRESS: AtomicU64 = AtomicU64::new(0);
+static CURRENT: Mutex<(String, String, String)> = Mutex::new((String::new(), String::new(), String::new()));
+
+fn watchdog_start(out_path: &str) {
+    CURRENT.lock().unwrap().2 = out_path.to_string();
+    std::thread::spawn(|| {
+        let mut last = PROGRESS.load(Ordering::SeqCst);
+        let mut idle = 0u32;
+        loop {
+            std::thread::sleep(std::time::Duration::from_millis(500));
+            let now = PROGRESS.load(Ordering::SeqCst);
+            if now == last {
+                idle += 1;
+            } else {
+                idle = 0;
+                last = now;
+            }
+            if idle >= 30 {
+                // 15 s inside one call of the code under test: report it as `hang` for that op
+                let (head, op, path) = CURRENT.lock().unwrap().clone();
+                let text = format!("{}\n{} => hang\n#stat cases 1\n#stat hang 1\n", head, op);
+                let _ = std::fs::write(&path, text);
+                std::process::exit(0);
+            }
+        }
+    });
 }
 
-pub fn replay(_a: &Args) -> String {
-    eprintln!("C16: harness not built yet");
-    std::process::exit(2);
+fn tick(head: &str, op: &str) {
+    PROGRESS.fetch_add(1, Ordering::SeqCst);
+    if let Ok(mut g) = CURRENT.lock() {
+        if g.0 != head {
+            g.0 = head.to_string();
+        }
+        g.1 = op.to_string();
+    }
+}
+
+// ------------------------------------------------------------------ canonical output
+fn ecode(e: &Error) -> String {
+    match e.code() {
+        ErrorCode::TLVTypeMismatch => "e:mismatch".into(),
+        ErrorCode::InvalidData => "e:invalidData".into(),
+        ErrorCode::Invalid => "e:invalid".into(),
+        ErrorCode::NotFound => "e:notFound".into(),
+        ErrorCode::NoSpace => "e:noSpace".into(),
+        c => format!("e:other-{:?}", c),
+    }
+}
+
+fn guard<F: FnOnce() -> String>(f: F) -> String {
+    match catch_unwind(AssertUnwindSafe(f)) {
+        Ok(s) => s,
+        Err(_) => "panic".into(),
+    }
+}
+
+/// with VERIF_PANIC_MSG=1 the location and message of every caught panic go to stderr (diagnosis only)
+fn install_panic_hook() {
+    if std::env::var("VERIF_PANIC_MSG").is_ok() {
+        std::panic::set_hook(Box::new(|info| {
+            let (head, op, _) = CURRENT.lock().map(|g| g.clone()).unwrap_or_default();
+            eprintln!("PANIC [{}] [{}]: {}", head, op, info);
+        }));
+    }
+}
+
+fn res<T>(r: Result<T, Error>, f: impl FnOnce(T) -> String) -> String {
+    match r {
+        Ok(v) => {
+            let s = f(v);
+            if s.is_empty() {
+                "ok".into()
+            } else {
+                format!("ok:{}", s)
+            }
+        }
+        Err(e) => ecode(&e),
+    }
+}
+
+fn tag_tok(t: &TLVTag) -> String {
+    match t {
+        TLVTag::Anonymous => "a".into(),
+        TLVTag::Context(n) => format!("c:{}", n),
+        TLVTag::CommonPrf16(n) => format!("cp16:{}", n),
+        TLVTag::CommonPrf32(n) => format!("cp32:{}", n),
+        TLVTag::ImplPrf16(n) => format!("ip16:{}", n),
+        TLVTag::ImplPrf32(n) => format!("ip32:{}", n),
+        TLVTag::FullQual48 { vendor_id, profile, tag } => format!("q48:{}:{}:{}", vendor_id, profile, tag),
+        TLVTag::FullQual64 { vendor_id, profile, tag } => format!("q64:{}:{}:{}", vendor_id, profile, tag),
+    }
+}
+
+fn val_tok(v: &TLVValue) -> String {
+    match v {
+        TLVValue::S8(x) => format!("s1:{}", x),
+        TLVValue::S16(x) => format!("s2:{}", x),
+        TLVValue::S32(x) => format!("s4:{}", x),
+        TLVValue::S64(x) => format!("s8:{}", x),
+        TLVValue::U8(x) => format!("u1:{}", x),
+        TLVValue::U16(x) => format!("u2:{}", x),
+        TLVValue::U32(x) => format!("u4:{}", x),
+        TLVValue::U64(x) => format!("u8:{}", x),
+        TLVValue::False => "F".into(),
+        TLVValue::True => "T".into(),
+        TLVValue::F32(x) => format!("f4:{}", x.to_bits()),
+        TLVValue::F64(x) => format!("f8:{}", x.to_bits()),
+        TLVValue::Utf8l(x) => format!("t1:{}", hex(x.as_bytes())),
+        TLVValue::Utf16l(x) => format!("t2:{}", hex(x.as_bytes())),
+        TLVValue::Utf32l(x) => format!("t4:{}", hex(x.as_bytes())),
+        TLVValue::Utf64l(x) => format!("t8:{}", hex(x.as_bytes())),
+        TLVValue::Str8l(x) => format!("o1:{}", hex(x)),
+        TLVValue::Str16l(x) => format!("o2:{}", hex(x)),
+        TLVValue::Str32l(x) => format!("o4:{}", hex(x)),
+        TLVValue::Str64l(x) => format!("o8:{}", hex(x)),
+        TLVValue::Null => "N".into(),
+        TLVValue::Struct => "{S".into(),
+        TLVValue::Array => "{A".into(),
+        TLVValue::List => "{L".into(),
+        TLVValue::EndCnt => "}".into(),
+    }
+}
+
+// ------------------------------------------------------------------ stream (a): accessors
+const DEPTH_CAP: usize = 40;
+
+/// tree of an element through the public accessors only (what a consumer of the codec does)
+fn decode_tree(e: &TLVElement, depth: usize, out: &mut Vec<String>) -> Result<(), String> {
+    if depth == 0 {
+        return Err("e:depth".into());
+    }
+    let t = e.tag().map_err(|x| ecode(&x))?;
+    let v = e.value().map_err(|x| ecode(&x))?;
+    out.push(tag_tok(&t));
+    match v {
+        TLVValue::Struct | TLVValue::Array | TLVValue::List => {
+            out.push(val_tok(&v));
+            let seq = e.container().map_err(|x| ecode(&x))?;
+            let cap = seq.verif_raw().len() + 2;
+            let mut n = 0usize;
+            for item in seq.iter() {
+                n += 1;
+                if n > cap {
+                    return Err("hang".into());
+                }
+                let c = item.map_err(|x| ecode(&x))?;
+                decode_tree(&c, depth - 1, out)?;
+            }
+            out.push("}".into());
+            Ok(())
+        }
+        TLVValue::EndCnt => Err("e:invalidData".into()),
+        p => {
+            out.push(val_tok(&p));
+            Ok(())
+        }
+    }
+}
+
+fn decode_tree_str(bytes: &[u8]) -> String {
+    let e = TLVElement::new(bytes);
+    let mut toks = Vec::new();
+    match decode_tree(&e, DEPTH_CAP, &mut toks) {
+        Ok(()) => format!("ok:{}", toks.join(" ")),
+        Err(s) => s,
+    }
+}
+
+fn seq_of<'a>(e: &TLVElement<'a>) -> Option<TLVSequence<'a>> {
+    e.container().ok()
+}
+
+fn accessor(bytes: &[u8], op: &str) -> String {
+    let e = TLVElement::new(bytes);
+    let mut it = op.split_whitespace();
+    let name = it.next().unwrap_or("");
+    let arg: u8 = it.next().and_then(|x| x.parse().ok()).unwrap_or(0);
+    match name {
+        "control" => res(e.control(), |c| format!("{},{}", c.tag_type as u8, c.value_type as u8)),
+        "tag" => res(e.tag(), |t| tag_tok(&t)),
+        "value" => res(e.value(), |v| val_tok(&v)),
+        "raw_value" => res(e.raw_value(), |v| hex(v)),
+        "i8" => res(e.i8(), |v| v.to_string()),
+        "u8" => res(e.u8(), |v| v.to_string()),
+        "i16" => res(e.i16(), |v| v.to_string()),
+        "u16" => res(e.u16(), |v| v.to_string()),
+        "i32" => res(e.i32(), |v| v.to_string()),
+        "u32" => res(e.u32(), |v| v.to_string()),
+        "i64" => res(e.i64(), |v| v.to_string()),
+        "u64" => res(e.u64(), |v| v.to_string()),
+        "f32" => res(e.f32(), |v| v.to_bits().to_string()),
+        "f64" => res(e.f64(), |v| v.to_bits().to_string()),
+        "str" => res(e.str(), |v| hex(v)),
+        "utf8" => res(e.utf8(), |v| hex(v.as_bytes())),
+        "octets" => res(e.octets(), |v| hex(v)),
+        "bool" => res(e.bool(), |v| (v as u8).to_string()),
+        "null" => res(e.null(), |_| String::new()),
+        "is_container" => res(e.is_container(), |v| (v as u8).to_string()),
+        "structure" => res(e.structure(), |s| s.verif_raw().len().to_string()),
+        "array" => res(e.array(), |s| s.verif_raw().len().to_string()),
+        "list" => res(e.list(), |s| s.verif_raw().len().to_string()),
+        "container" => res(e.container(), |s| s.verif_raw().len().to_string()),
+        "confirm_anon" => res(e.confirm_anon(), |_| String::new()),
+        "ctx" => res(e.ctx(), |v| v.to_string()),
+        "try_ctx" => res(e.try_ctx(), |v| v.map(|x| x.to_string()).unwrap_or("none".into())),
+        "container_len" => res(e.verif_container_len(), |v| v.to_string()),
+        "is_empty" => format!("ok:{}", e.is_empty() as u8),
+        "tree" => decode_tree_str(bytes),
+        "reencode" => {
+            if e.is_empty() {
+                return "ok:-".into();
+            }
+            match e.tag() {
+                Err(x) => ecode(&x),
+                Ok(t) => {
+                    let mut buf = vec![0u8; bytes.len() + 32];
+                    let mut wb = WriteBuf::new(&mut buf);
+                    res(e.to_tlv(&t, &mut wb), |_| hex(wb.as_slice()))
+                }
+            }
+        }
+        "reencode_iter" => {
+            if e.is_empty() {
+                return "ok:-".into();
+            }
+            match e.tag() {
+                Err(x) => ecode(&x),
+                Ok(t) => {
+                    let cap = 2 * bytes.len() + 64;
+                    let mut outb: Vec<u8> = Vec::new();
+                    let mut n_items = 0usize;
+                    for item in e.tlv_iter(t) {
+                        n_items += 1;
+                        if n_items > bytes.len() + 3 {
+                            return "hang".into();
+                        }
+                        match item {
+                            Err(x) => return ecode(&x),
+                            Ok(tlv) => {
+                                for b in tlv.bytes_iter() {
+                                    outb.push(b);
+                                    if outb.len() > cap {
+                                        return "hang".into();
+                                    }
+                                }
+                            }
+                        }
+                    }
+                    format!("ok:{}", hex(&outb))
+                }
+            }
+        }
+        "fmt" => {
+            use std::fmt::Write as _;
+            let mut s = String::new();
+            match write!(&mut s, "{}", e) {
+                Ok(()) => "ok".into(),
+                Err(_) => "e:fmt".into(),
+            }
+        }
+        // ---- sequence = content of the element as a container
+        "iter" => match seq_of(&e) {
+            None => "nc".into(),
+            Some(seq) => {
+                let cap = seq.verif_raw().len() + 2;
+                let mut items: Vec<String> = Vec::new();
+                for item in seq.iter() {
+                    if items.len() >= cap {
+                        items.push("hang".into());
+                        break;
+                    }
+                    match item {
+                        Ok(el) => items.push(el.raw_data().len().to_string()),
+                        Err(x) => items.push(ecode(&x)),
+                    }
+                }
+                format!("[{}]", items.join(","))
+            }
+        },
+        "tlviter" => match seq_of(&e) {
+            None => "nc".into(),
+            Some(seq) => {
+                let cap = seq.verif_raw().len() + 2;
+                let mut items: Vec<String> = Vec::new();
+                for item in seq.tlv_iter() {
+                    if items.len() >= cap {
+                        items.push("hang".into());
+                        break;
+                    }
+                    match item {
+                        Ok(tlv) => items.push(format!("{}={}", tag_tok(&tlv.tag), val_tok(&tlv.value))),
+                        Err(x) => items.push(ecode(&x)),
+                    }
+                }
+                format!("[{}]", items.join(","))
+            }
+        },
+        "find_ctx" => match seq_of(&e) {
+            None => "nc".into(),
+            Some(seq) => res(seq.find_ctx(arg), |el| el.raw_data().len().to_string()),
+        },
+        "seq_ctx" => match seq_of(&e) {
+            None => "nc".into(),
+            Some(seq) => res(seq.ctx(arg), |el| el.raw_data().len().to_string()),
+        },
+        "scan_ctx" => match seq_of(&e) {
+            None => "nc".into(),
+            Some(mut seq) => {
+                let r = seq.scan_ctx(arg);
+                res(r, |el| format!("{}:{}", el.raw_data().len(), seq.verif_raw().len()))
+            }
+        },
+        "seq_raw_value" => match seq_of(&e) {
+            None => "nc".into(),
+            Some(seq) => res(seq.raw_value(), |v| hex(v)),
+        },
+        _ => "BADOP".into(),
+    }
+}
+
+const ACCESSORS: &[&str] = &[
+    "control", "tag", "value", "raw_value", "container_len", "i8", "u8", "i16", "u16", "i32", "u32", "i64", "u64",
+    "f32", "f64", "str", "utf8", "octets", "bool", "null", "is_container", "structure", "array", "list", "container",
+    "confirm_anon", "ctx", "try_ctx", "is_empty", "tree", "reencode", "reencode_iter", "fmt", "iter", "tlviter",
+    "seq_raw_value",
+];
+
+// ------------------------------------------------------------------ stream (b): value trees
+#[derive(Clone, Debug)]
+enum Node {
+    Leaf(TLVTag, String),
+    Cont(TLVTag, char, Vec<Node>),
+}
+
+fn parse_tag(s: &str) -> Option<TLVTag> {
+    let p: Vec<&str> = s.split(':').collect();
+    Some(match (p[0], p.len()) {
+        ("a", 1) => TLVTag::Anonymous,
+        ("c", 2) => TLVTag::Context(p[1].parse().ok()?),
+        ("cp16", 2) => TLVTag::CommonPrf16(p[1].parse().ok()?),
+        ("cp32", 2) => TLVTag::CommonPrf32(p[1].parse().ok()?),
+        ("ip16", 2) => TLVTag::ImplPrf16(p[1].parse().ok()?),
+        ("ip32", 2) => TLVTag::ImplPrf32(p[1].parse().ok()?),
+        ("q48", 4) => TLVTag::FullQual48 { vendor_id: p[1].parse().ok()?, profile: p[2].parse().ok()?, tag: p[3].parse().ok()? },
+        ("q64", 4) => TLVTag::FullQual64 { vendor_id: p[1].parse().ok()?, profile: p[2].parse().ok()?, tag: p[3].parse().ok()? },
+        _ => return None,
+    })
+}
+
+fn parse_nodes(toks: &[&str], pos: &mut usize, until_close: bool) -> Option<Vec<Node>> {
+    let mut res = Vec::new();
+    while *pos < toks.len() {
+        if toks[*pos] == "}" {
+            if until_close {
+                *pos += 1;
+                return Some(res);
+            }
+            return None;
+        }
+        let tag = parse_tag(toks[*pos])?;
+        *pos += 1;
+        let v = *toks.get(*pos)?;
+        *pos += 1;
+        if let Some(k) = v.strip_prefix('{') {
+            let kids = parse_nodes(toks, pos, true)?;
+            res.push(Node::Cont(tag, k.chars().next()?, kids));
+        } else {
+            res.push(Node::Leaf(tag, v.to_string()));
+        }
+    }
+    if until_close {
+        None
+    } else {
+        Some(res)
+    }
+}
+
+fn parse_tree(s: &str) -> Option<Node> {
+    let toks: Vec<&str> = s.split_whitespace().collect();
+    let mut pos = 0;
+    let mut v = parse_nodes(&toks, &mut pos, false)?;
+    if v.len() == 1 {
+        v.pop()
+    } else {
+        None
+    }
+}
+
+fn split_prim(p: &str) -> (&str, &str) {
+    match p.find(':') {
+        Some(i) => (&p[..i], &p[i + 1..]),
+        None => (p, ""),
+    }
+}
+
+/// one leaf through the real `TLVWrite`; the token says which writer method is used
+fn write_leaf(wb: &mut WriteBuf, tag: &TLVTag, p: &str) -> Result<(), String> {
+    let (k, v) = split_prim(p);
+    let bad = || format!("BADTOK:{}", p);
+    let e = |x: Error| ecode(&x);
+    let data = unhex(v);
+    match k {
+        "s1" => wb.tlv(tag, &TLVValue::S8(v.parse().map_err(|_| bad())?)).map_err(e),
+        "s2" => wb.tlv(tag, &TLVValue::S16(v.parse().map_err(|_| bad())?)).map_err(e),
+        "s4" => wb.tlv(tag, &TLVValue::S32(v.parse().map_err(|_| bad())?)).map_err(e),
+        "s8" => wb.tlv(tag, &TLVValue::S64(v.parse().map_err(|_| bad())?)).map_err(e),
+        "u1" => wb.tlv(tag, &TLVValue::U8(v.parse().map_err(|_| bad())?)).map_err(e),
+        "u2" => wb.tlv(tag, &TLVValue::U16(v.parse().map_err(|_| bad())?)).map_err(e),
+        "u4" => wb.tlv(tag, &TLVValue::U32(v.parse().map_err(|_| bad())?)).map_err(e),
+        "u8" => wb.tlv(tag, &TLVValue::U64(v.parse().map_err(|_| bad())?)).map_err(e),
+        "ds" => wb.i8(tag, v.parse().map_err(|_| bad())?).map_err(e),
+        "du" => wb.u8(tag, v.parse().map_err(|_| bad())?).map_err(e),
+        "ms2" => wb.i16(tag, v.parse().map_err(|_| bad())?).map_err(e),
+        "ms4" => wb.i32(tag, v.parse().map_err(|_| bad())?).map_err(e),
+        "ms8" => wb.i64(tag, v.parse().map_err(|_| bad())?).map_err(e),
+        "mu2" => wb.u16(tag, v.parse().map_err(|_| bad())?).map_err(e),
+        "mu4" => wb.u32(tag, v.parse().map_err(|_| bad())?).map_err(e),
+        "mu8" => wb.u64(tag, v.parse().map_err(|_| bad())?).map_err(e),
+        "T" => wb.bool(tag, true).map_err(e),
+        "F" => wb.bool(tag, false).map_err(e),
+        "N" => wb.null(tag).map_err(e),
+        "f4" => wb.f32(tag, f32::from_bits(v.parse().map_err(|_| bad())?)).map_err(e),
+        "f8" => wb.f64(tag, f64::from_bits(v.parse().map_err(|_| bad())?)).map_err(e),
+        "t1" | "t2" | "t4" | "t8" | "mt" | "ct" => {
+            let s = std::str::from_utf8(&data).map_err(|_| bad())?;
+            match k {
+                "t1" => wb.tlv(tag, &TLVValue::Utf8l(s)).map_err(e),
+                "t2" => wb.tlv(tag, &TLVValue::Utf16l(s)).map_err(e),
+                "t4" => wb.tlv(tag, &TLVValue::Utf32l(s)).map_err(e),
+                "t8" => wb.tlv(tag, &TLVValue::Utf64l(s)).map_err(e),
+                "mt" => wb.utf8(tag, s).map_err(e),
+                _ => wb
+                    .utf8_cb(tag, |buf| {
+                        buf[..data.len()].copy_from_slice(&data);
+                        Ok(data.len())
+                    })
+                    .map_err(e),
+            }
+        }
+        "o1" => wb.tlv(tag, &TLVValue::Str8l(&data)).map_err(e),
+        "o2" => wb.tlv(tag, &TLVValue::Str16l(&data)).map_err(e),
+        "o4" => wb.tlv(tag, &TLVValue::Str32l(&data)).map_err(e),
+        "o8" => wb.tlv(tag, &TLVValue::Str64l(&data)).map_err(e),
+        "mo" => wb.str(tag, &data).map_err(e),
+        "co" => wb
+            .str_cb(tag, |buf| {
+                buf[..data.len()].copy_from_slice(&data);
+                Ok(data.len())
+            })
+            .map_err(e),
+        _ => Err(bad()),
+    }
+}
+
+fn write_node(wb: &mut WriteBuf, n: &Node, lens: &mut Vec<(usize, usize, usize)>) -> Result<(), String> {
+    match n {
+        Node::Leaf(tag, p) => {
+            let start = wb.get_tail();
+            write_leaf(wb, tag, p)?;
+            let k = split_prim(p).0;
+            let w = match k {
+                "t1" | "o1" => 1,
+                "t2" | "o2" => 2,
+                "t4" | "o4" => 4,
+                "t8" | "o8" => 8,
+                _ => 0,
+            };
+            if w > 0 {
+                lens.push((start, tag_size(tag), w));
+            }
+            Ok(())
+        }
+        Node::Cont(tag, k, kids) => {
+            match k {
+                'S' => wb.start_struct(tag),
+                'A' => wb.start_array(tag),
+                _ => wb.start_list(tag),
+            }
+            .map_err(|x| ecode(&x))?;
+            for c in kids {
+                write_node(wb, c, lens)?;
+            }
+            wb.end_container().map_err(|x| ecode(&x))
+        }
+    }
+}
+
+fn tag_size(t: &TLVTag) -> usize {
+    t.tag_type().size()
+}
+
+fn write_tree(n: &Node, lens: &mut Vec<(usize, usize, usize)>) -> Result<Vec<u8>, String> {
+    let mut buf = vec![0u8; 400_000];
+    let mut wb = WriteBuf::new(&mut buf);
+    write_node(&mut wb, n, lens)?;
+    Ok(wb.as_slice().to_vec())
+}
+
+/// the same tree through the iterator-style encoder (`TLV::bytes_iter`)
+fn iter_leaf_value<'a>(p: &str, data: &'a [u8]) -> Result<TLVValue<'a>, String> {
+    let (k, v) = split_prim(p);
+    let bad = || format!("BADTOK:{}", p);
+    Ok(match k {
+        "s1" | "ds" => TLVValue::S8(v.parse().map_err(|_| bad())?),
+        "s2" => TLVValue::S16(v.parse().map_err(|_| bad())?),
+        "s4" => TLVValue::S32(v.parse().map_err(|_| bad())?),
+        "s8" => TLVValue::S64(v.parse().map_err(|_| bad())?),
+        "u1" | "du" => TLVValue::U8(v.parse().map_err(|_| bad())?),
+        "u2" => TLVValue::U16(v.parse().map_err(|_| bad())?),
+        "u4" => TLVValue::U32(v.parse().map_err(|_| bad())?),
+        "u8" => TLVValue::U64(v.parse().map_err(|_| bad())?),
+        "ms2" => TLVValue::i16(v.parse().map_err(|_| bad())?),
+        "ms4" => TLVValue::i32(v.parse().map_err(|_| bad())?),
+        "ms8" => TLVValue::i64(v.parse().map_err(|_| bad())?),
+        "mu2" => TLVValue::u16(v.parse().map_err(|_| bad())?),
+        "mu4" => TLVValue::u32(v.parse().map_err(|_| bad())?),
+        "mu8" => TLVValue::u64(v.parse().map_err(|_| bad())?),
+        "T" => TLVValue::True,
+        "F" => TLVValue::False,
+        "N" => TLVValue::Null,
+        "f4" => TLVValue::F32(f32::from_bits(v.parse().map_err(|_| bad())?)),
+        "f8" => TLVValue::F64(f64::from_bits(v.parse().map_err(|_| bad())?)),
+        "t1" => TLVValue::Utf8l(std::str::from_utf8(data).map_err(|_| bad())?),
+        "t2" => TLVValue::Utf16l(std::str::from_utf8(data).map_err(|_| bad())?),
+        "t4" => TLVValue::Utf32l(std::str::from_utf8(data).map_err(|_| bad())?),
+        "t8" => TLVValue::Utf64l(std::str::from_utf8(data).map_err(|_| bad())?),
+        "mt" | "ct" => TLVValue::utf8(std::str::from_utf8(data).map_err(|_| bad())?),
+        "o1" => TLVValue::Str8l(data),
+        "o2" => TLVValue::Str16l(data),
+        "o4" => TLVValue::Str32l(data),
+        "o8" => TLVValue::Str64l(data),
+        "mo" | "co" => TLVValue::str(data),
+        _ => return Err(bad()),
+    })
+}
+
+fn iterwrite_node(n: &Node, out: &mut Vec<u8>) -> Result<(), String> {
+    match n {
+        Node::Leaf(tag, p) => {
+            let data = unhex(split_prim(p).1);
+            let v = iter_leaf_value(p, &data)?;
+            out.extend(TLV::new(tag.clone(), v).bytes_iter());
+            Ok(())
+        }
+        Node::Cont(tag, k, kids) => {
+            let v = match k {
+                'S' => TLVValue::Struct,
+                'A' => TLVValue::Array,
+                _ => TLVValue::List,
+            };
+            out.extend(TLV::new(tag.clone(), v).bytes_iter());
+            for c in kids {
+                iterwrite_node(c, out)?;
+            }
+            out.extend(TLV::end_container().bytes_iter());
+            Ok(())
+        }
+    }
+}
+
+fn tree_op(op: &str) -> String {
+    let (name, rest) = match op.find(' ') {
+        Some(i) => (&op[..i], op[i + 1..].trim()),
+        None => (op, ""),
+    };
+    match name {
+        "write" => match parse_tree(rest) {
+            None => "BADTREE".into(),
+            Some(n) => match write_tree(&n, &mut Vec::new()) {
+                Ok(b) => format!("ok:{}", hex(&b)),
+                Err(s) => s,
+            },
+        },
+        "iterwrite" => match parse_tree(rest) {
+            None => "BADTREE".into(),
+            Some(n) => {
+                let mut b = Vec::new();
+                match iterwrite_node(&n, &mut b) {
+                    Ok(()) => format!("ok:{}", hex(&b)),
+                    Err(s) => s,
+                }
+            }
+        },
+        "decode" => decode_tree_str(&unhex(rest)),
+        _ => "BADOP".into(),
+    }
+}
+
+// ------------------------------------------------------------------ case runner
+fn run_case(out: &mut Out, case: &Case) {
+    let head = format!("case {} {}", case.id, case.kind);
+    out.case(case.id, &case.kind);
+    let mut kw = case.kind.split_whitespace();
+    let kind = kw.next().unwrap_or("");
+    let arg = kw.next().unwrap_or("");
+    let mut outs: Vec<String> = Vec::new();
+    match kind {
+        "a" => {
+            let bytes = unhex(arg);
+            for op in &case.ops {
+                tick(&head, op);
+                let o = guard(|| accessor(&bytes, op));
+                out.stat(&format!("out_{}", class_of(&o)), 1);
+                out.op(op, &o);
+                outs.push(o);
+            }
+            // non-trivial: the input is neither accepted nor rejected by everything
+            let any_ok = outs.iter().any(|o| o.starts_with("ok"));
+            let any_err = outs.iter().any(|o| o.starts_with("e:"));
+            if any_ok && any_err {
+                out.buf.push_str("#nt\n");
+            }
+        }
+        "w" => {
+            for op in &case.ops {
+                tick(&head, op);
+                let o = guard(|| tree_op(op));
+                out.stat(&format!("out_{}", class_of(&o)), 1);
+                out.op(op, &o);
+                outs.push(o);
+            }
+            if outs.iter().all(|o| o.starts_with("ok")) && !outs.is_empty() {
+                out.buf.push_str("#nt\n");
+            }
+        }
+        "s" => {
+            for op in &case.ops {
+                tick(&head, op);
+                let o = guard(|| structs::op(arg, op));
+                out.stat(&format!("out_{}", class_of(&o)), 1);
+                out.op(op, &o);
+                outs.push(o);
+            }
+            if outs.iter().any(|o| o.starts_with("ok")) {
+                out.buf.push_str("#nt\n");
+            }
+        }
+        _ => {
+            for op in &case.ops {
+                out.op(op, "BADKIND");
+            }
+        }
+    }
+}
+
+fn class_of(o: &str) -> &'static str {
+    if o.starts_with("ok") || o.starts_with('[') {
+        "ok"
+    } else if o.starts_with("e:") {
+        "err"
+    } else if o == "nc" {
+        "nocontainer"
+    } else if o == "panic" {
+        "panic"
+    } else if o == "hang" {
+        "hang"
+    } else {
+        "other"
+    }
+}
+
+// ------------------------------------------------------------------ generators
+fn gen_tag(r: &mut Rng, in_struct: bool) -> TLVTag {
+    let x = r.below(100);
+    if in_struct && x < 70 {
+        return TLVTag::Context(*r.pick(&[0u8, 1, 2, 3, 4, 5, 7, 127, 128, 254, 255]));
+    }
+    match x % 12 {
+        0..=4 => TLVTag::Anonymous,
+        5 => TLVTag::Context(r.below(256) as u8),
+        6 => TLVTag::CommonPrf16(*r.pick(&[0u16, 1, 255, 256, 65535])),
+        7 => TLVTag::CommonPrf32(*r.pick(&[0u32, 65535, 65536, u32::MAX])),
+        8 => TLVTag::ImplPrf16(r.below(65536) as u16),
+        9 => TLVTag::ImplPrf32(r.next() as u32),
+        10 => TLVTag::FullQual48 { vendor_id: r.next() as u16, profile: *r.pick(&[0u16, 1, 65535]), tag: r.next() as u16 },
+        _ => TLVTag::FullQual64 { vendor_id: *r.pick(&[0u16, 0xfff1, 65535]), profile: r.next() as u16, tag: *r.pick(&[0u32, 65536, u32::MAX]) },
+    }
+}
+
+fn gen_utf8(r: &mut Rng, max: usize) -> Vec<u8> {
+    let mut s = String::new();
+    let n = r.below(max as u64 + 1) as usize;
+    let alphabet = ['a', 'Z', '0', ' ', '\u{7f}', '\u{80}', '\u{7ff}', '\u{800}', '\u{d7ff}', '\u{e000}', '\u{ffff}', '\u{10000}', '\u{10ffff}', 'é', '€', '\0'];
+    while s.len() < n {
+        s.push(*r.pick(&alphabet));
+    }
+    while s.len() > n {
+        s.pop();
+    }
+    s.into_bytes()
+}
+
+fn int_extreme(r: &mut Rng, bits: u32, signed: bool) -> i128 {
+    let max: i128 = if signed { (1i128 << (bits - 1)) - 1 } else { (1i128 << bits) - 1 };
+    let min: i128 = if signed { -(1i128 << (bits - 1)) } else { 0 };
+    match r.below(8) {
+        0 => max,
+        1 => min,
+        2 => 0,
+        3 => max - 1,
+        4 => min + 1,
+        5 => {
+            if signed {
+                -1
+            } else {
+                1
+            }
+        }
+        _ => {
+            let span = (max - min + 1) as u128;
+            min + ((((r.next() as u128) << 64) | r.next() as u128) % span) as i128
+        }
+    }
+}
+
+fn str_len(r: &mut Rng, w: usize, big: bool) -> usize {
+    match w {
+        1 => *r.pick(&[0usize, 1, 2, 3, 8, 32, 254, 255]),
+        2 if big => *r.pick(&[0usize, 1, 255, 256, 257, 1000, 65535]),
+        4 if big => *r.pick(&[0usize, 3, 256, 65535, 65536, 70000]),
+        8 if big => *r.pick(&[0usize, 5, 300, 65536]),
+        _ => *r.pick(&[0usize, 1, 2, 5, 17]),
+    }
+}
+
+fn gen_leaf(r: &mut Rng, big: bool, writer_forms: bool) -> String {
+    let x = r.below(if writer_forms { 36 } else { 24 });
+    match x {
+        0 => format!("s1:{}", int_extreme(r, 8, true)),
+        1 => format!("s2:{}", int_extreme(r, 16, true)),
+        2 => format!("s4:{}", int_extreme(r, 32, true)),
+        3 => format!("s8:{}", int_extreme(r, 64, true)),
+        4 => format!("u1:{}", int_extreme(r, 8, false)),
+        5 => format!("u2:{}", int_extreme(r, 16, false)),
+        6 => format!("u4:{}", int_extreme(r, 32, false)),
+        7 => format!("u8:{}", int_extreme(r, 64, false)),
+        8 => "T".into(),
+        9 => "F".into(),
+        10 => "N".into(),
+        11 => format!("f4:{}", *r.pick(&[0u32, 0x3f800000, 0x7f800000, 0xff800000, 0x7fc00000, 0x7fa00001, 0x80000000, 1, u32::MAX, 0x4188cccd])),
+        12 => format!("f8:{}", *r.pick(&[0u64, 0x3ff0000000000000, 0x7ff0000000000000, 0x7ff8000000000000, 0x7ff4000000000001, 1 << 63, 1, u64::MAX])),
+        13 | 14 => {
+            let w = *r.pick(&[1usize, 2, 4, 8]);
+            let n = str_len(r, w, big);
+            format!("t{}:{}", w, hex(&gen_utf8(r, n)))
+        }
+        15..=19 => {
+            let w = *r.pick(&[1usize, 1, 2, 4, 8]);
+            let n = str_len(r, w, big);
+            format!("o{}:{}", w, hex(&r.bytes(n)))
+        }
+        20..=23 => format!("u1:{}", r.below(256)),
+        24 => format!("ms2:{}", int_extreme(r, 16, true).clamp(-200, 200) * (1 + r.below(2) as i128 * 100)),
+        25 => format!("ms4:{}", *r.pick(&[0i64, 127, 128, -128, -129, 32767, 32768, -32768, -32769, i32::MAX as i64, i32::MIN as i64])),
+        26 => format!("ms8:{}", *r.pick(&[0i64, -1, 127, 128, -129, 32768, -32769, 2147483647, 2147483648, -2147483648, -2147483649, i64::MAX, i64::MIN])),
+        27 => format!("mu2:{}", *r.pick(&[0u64, 1, 255, 256, 65535])),
+        28 => format!("mu4:{}", *r.pick(&[0u64, 255, 256, 65535, 65536, u32::MAX as u64])),
+        29 => format!("mu8:{}", *r.pick(&[0u64, 255, 256, 65535, 65536, 4294967295, 4294967296, u64::MAX])),
+        30 => format!("ds:{}", int_extreme(r, 8, true)),
+        31 => format!("du:{}", int_extreme(r, 8, false)),
+        32 => {
+            let n = *r.pick(&[0usize, 1, 255, 256, 257, 300]);
+            let n = if big { n } else { n.min(3) };
+            format!("mo:{}", hex(&r.bytes(n)))
+        }
+        33 => {
+            let n = *r.pick(&[0usize, 1, 255, 256, 257, 300]);
+            let n = if big { n } else { n.min(3) };
+            format!("mt:{}", hex(&gen_utf8(r, n)))
+        }
+        34 => {
+            let n = *r.pick(&[0usize, 1, 2, 254, 255, 256, 257, 1000]);
+            let n = if big { n } else { n.min(3) };
+            format!("co:{}", hex(&r.bytes(n)))
+        }
+        _ => {
+            let n = *r.pick(&[0usize, 1, 2, 254, 255, 256, 257]);
+            let n = if big { n } else { n.min(3) };
+            format!("ct:{}", hex(&gen_utf8(r, n)))
+        }
+    }
+}
+
+fn gen_node(r: &mut Rng, depth: usize, in_struct: bool, big: bool, wf: bool, budget: &mut usize) -> Node {
+    let tag = gen_tag(r, in_struct);
+    if depth > 0 && *budget > 0 && r.chance(2, 5) {
+        let k = *r.pick(&['S', 'A', 'L']);
+        let n = r.below(5) as usize;
+        let mut kids = Vec::new();
+        for _ in 0..n {
+            if *budget == 0 {
+                break;
+            }
+            *budget -= 1;
+            kids.push(gen_node(r, depth - 1, k == 'S', big, wf, budget));
+        }
+        Node::Cont(tag, k, kids)
+    } else {
+        Node::Leaf(tag, gen_leaf(r, big, wf))
+    }
+}
+
+fn node_tokens(n: &Node, out: &mut Vec<String>) {
+    match n {
+        Node::Leaf(t, p) => {
+            out.push(tag_tok(t));
+            out.push(p.clone());
+        }
+        Node::Cont(t, k, kids) => {
+            out.push(tag_tok(t));
+            out.push(format!("{{{}", k));
+            for c in kids {
+                node_tokens(c, out);
+            }
+            out.push("}".into());
+        }
+    }
+}
+
+fn node_str(n: &Node) -> String {
+    let mut v = Vec::new();
+    node_tokens(n, &mut v);
+    v.join(" ")
+}
+
+/// boundary values for a length field, relative to the number of bytes `rem` that follow it
+fn boundary_len(r: &mut Rng, rem: u64, tag_size: u64) -> u64 {
+    let edge = u64::MAX - 8 - tag_size; // 1 + tag + 8 + len overflows from here on
+    *r.pick(&[
+        0,
+        rem.wrapping_sub(1),
+        rem,
+        rem + 1,
+        0xffff,
+        0xffff_ffff,
+        1 << 63,
+        u64::MAX,
+        edge,
+        edge.wrapping_sub(1),
+        edge + 1,
+        u64::MAX - rem,
+        u64::MAX - rem - 1,
+        (1 << 63) - 1,
+        (1u64 << 32),
+    ])
+}
+
+/// stream (a): a byte string and how it was made
+fn gen_bytes(r: &mut Rng, out: &mut Out, thorough: bool) -> Vec<u8> {
+    let pick = r.below(100);
+    let mut budget = if thorough { 14 } else { 8 };
+    let mut lens = Vec::new();
+    let big = r.chance(1, 12);
+    let tree = gen_node(r, 4, false, big, false, &mut budget);
+    // containers more often at top level
+    let tree = if r.chance(1, 2) {
+        match tree {
+            Node::Leaf(..) => Node::Cont(gen_tag(r, false), *r.pick(&['S', 'A', 'L']), vec![tree, gen_node(r, 2, true, false, false, &mut budget)]),
+            t => t,
+        }
+    } else {
+        tree
+    };
+    let mut b = write_tree(&tree, &mut lens).unwrap_or_default();
+    match pick {
+        0..=14 => {
+            out.stat("a_valid", 1);
+        }
+        15..=29 => {
+            out.stat("a_truncated", 1);
+            let n = r.below(b.len() as u64 + 1) as usize;
+            b.truncate(n);
+        }
+        30..=49 => {
+            if lens.is_empty() {
+                // no string in the tree: put one in front inside a struct
+                out.stat("a_len_header", 1);
+                let v = boundary_len(r, 3, 0);
+                b = vec![0x15, 0x13];
+                b.extend_from_slice(&v.to_le_bytes());
+                let k = r.below(5) as usize;
+                b.extend_from_slice(&r.bytes(k));
+            } else if r.chance(1, 2) {
+                out.stat("a_len_same_width", 1);
+                let (start, ts, w) = *r.pick(&lens);
+                let off = start + 1 + ts;
+                let rem = (b.len() - off - w) as u64;
+                let v = boundary_len(r, rem, ts as u64);
+                b[off..off + w].copy_from_slice(&v.to_le_bytes()[..w]);
+            } else {
+                out.stat("a_len_widened", 1);
+                let (start, ts, w) = *r.pick(&lens);
+                let off = start + 1 + ts;
+                let nw = *r.pick(&[2usize, 4, 8, 8, 8]);
+                let code = match nw {
+                    2 => 1,
+                    4 => 2,
+                    _ => 3,
+                };
+                b[start] = (b[start] & 0xfc) | code;
+                let rem = (b.len() - off - w) as u64;
+                let v = boundary_len(r, rem, ts as u64);
+                let mut nb = b[..off].to_vec();
+                nb.extend_from_slice(&v.to_le_bytes()[..nw]);
+                nb.extend_from_slice(&b[off + w..]);
+                b = nb;
+            }
+        }
+        50..=59 => {
+            out.stat("a_byte_mutation", 1);
+            if !b.is_empty() {
+                for _ in 0..r.range(1, 3) {
+                    let i = r.below(b.len() as u64) as usize;
+                    b[i] = if r.chance(1, 2) {
+                        *r.pick(&[0x18u8, 0x15, 0x16, 0x17, 0x35, 0x38, 0xf8, 0xff, 0x19, 0x1f, 0x13, 0x0f, 0x10, 0x0c, 0x00, 0x34, 0xd8])
+                    } else {
+                        r.next() as u8
+                    };
+                }
+            }
+        }
+        60..=69 => {
+            out.stat("a_end_marker_mutation", 1);
+            let ends: Vec<usize> = b.iter().enumerate().filter(|(_, x)| **x == 0x18).map(|(i, _)| i).collect();
+            match r.below(4) {
+                0 if !ends.is_empty() => {
+                    b.remove(*r.pick(&ends));
+                }
+                1 => {
+                    let i = r.below(b.len() as u64 + 1) as usize;
+                    b.insert(i, 0x18);
+                }
+                2 => b.push(0x18),
+                _ => {
+                    let i = r.below(b.len() as u64 + 1) as usize;
+                    b.insert(i, *r.pick(&[0x38u8, 0x58, 0xf8, 0x15, 0x36]));
+                }
+            }
+        }
+        70..=77 => {
+            out.stat("a_deep_nesting", 1);
+            let n = r.range(1, if thorough { 300 } else { 60 }) as usize;
+            let m = match r.below(4) {
+                0 => n,
+                1 => n - 1,
+                2 => n + 1,
+                _ => r.below(n as u64 + 2) as usize,
+            };
+            b = Vec::new();
+            for _ in 0..n {
+                b.push(*r.pick(&[0x15u8, 0x16, 0x17, 0x15, 0x35]));
+                if *b.last().unwrap() == 0x35 {
+                    b.push(r.next() as u8);
+                }
+            }
+            if r.chance(1, 3) {
+                b.extend_from_slice(&[0x24, 0x01, 0x07]);
+            }
+            for _ in 0..m {
+                b.push(0x18);
+            }
+        }
+        78..=89 => {
+            out.stat("a_random_typed", 1);
+            let n = r.below(24) as usize;
+            b = Vec::new();
+            while b.len() < n {
+                let tagc = *r.pick(&[0u8, 0, 0, 1, 1, 2, 3, 4, 5, 6, 7]);
+                let lim = if r.chance(1, 8) { 32 } else { 25 };
+                let vt = r.below(lim) as u8;
+                b.push((tagc << 5) | vt);
+                let extra = r.below(6) as usize;
+                b.extend_from_slice(&r.bytes(extra));
+            }
+        }
+        90..=94 => {
+            out.stat("a_random_bytes", 1);
+            let n = r.below(40) as usize;
+            b = r.bytes(n);
+        }
+        _ => {
+            out.stat("a_known_shapes", 1);
+            let shapes: [&[u8]; 12] = [
+                &[],
+                &[0x18],
+                &[0x18, 0x18],
+                &[0x15],
+                &[0x15, 0x18],
+                &[0x15, 0x13, 0xff, 0xff, 0xff, 0xff, 0xff, 0xff, 0xff, 0xff],
+                &[0x13, 0xff, 0xff, 0xff, 0xff, 0xff, 0xff, 0xff, 0xff],
+                &[0x15, 0x04, 0x01, 0x13, 0xf4, 0xff, 0xff, 0xff, 0xff, 0xff, 0xff, 0xff],
+                &[0x15, 0x38],
+                &[0x16, 0x04, 0x01, 0x18],
+                &[0x30, 0x05, 0x01],
+                &[0x15, 0x24, 0x01],
+            ];
+            b = r.pick(&shapes).to_vec();
+        }
+    }
+    b
+}
+
+fn accessor_ops(r: &mut Rng, bytes: &[u8]) -> Vec<String> {
+    let mut ops: Vec<String> = ACCESSORS.iter().map(|s| s.to_string()).collect();
+    // context ids present in the input + a few others
+    let mut ids: Vec<u8> = vec![0, 1, 2, 255];
+    for w in bytes.windows(2) {
+        if w[0] >> 5 == 1 {
+            ids.push(w[1]);
+        }
+    }
+    for name in ["find_ctx", "seq_ctx", "scan_ctx"] {
+        let id = *r.pick(&ids);
+        ops.push(format!("{} {}", name, id));
+        let id = *r.pick(&ids);
+        ops.push(format!("{} {}", name, id));
+    }
+    ops
+}
+
+const RULE: &str = "#rule stream a: one byte string per case (valid encodings of random trees; truncated; every string length field replaced, same width or widened to 2/4/8 bytes, by 0, rem-1, rem, rem+1, 2^16-1, 2^32-1, 2^32, 2^63-1, 2^63, 2^64-1 and the values around the overflow point of 1+tag+8+len; byte and end-marker mutations; nesting up to 300; random typed and uniform bytes; known shapes) x every public accessor of TLVElement/TLVSequence/iterators, capped at len+2 steps; non-trivial = at least one accessor accepts and one rejects. stream w: one value tree per case (all tag forms, all integer widths at their extremes, floats by bit pattern incl. NaN payloads, UTF-8 and octet strings with 1/2/4/8-byte length fields, nulls, nesting) written by TLVWrite and by TLV::bytes_iter, decoded back with the public accessors; non-trivial = written and decoded. stream s: derived wire structures round-tripped. distinct = by case text";
+
+pub fn gen(a: &Args) -> String {
+    watchdog_start(&a.out);
+    install_panic_hook();
+    // `fork` decorrelates adjacent seeds (Rng::new(s) and Rng::new(s + 1) are the same stream shifted by one draw)
+    let mut r = Rng::new(a.seed).fork();
+    let mut out = Out::default();
+    out.buf.push_str(RULE);
+    out.buf.push('\n');
+    let n_a = if a.thorough { 40_000 } else { 8_000 };
+    let n_w = if a.thorough { 12_000 } else { 3_000 };
+    let n_s = if a.thorough { 6_000 } else { 1_500 };
+    let mut id = 0u64;
+    for _ in 0..n_a {
+        let mut cr = r.fork();
+        let b = gen_bytes(&mut cr, &mut out, a.thorough);
+        out.stat(&format!("a_len_{}", len_bucket(b.len())), 1);
+        let ops = accessor_ops(&mut cr, &b);
+        run_case(&mut out, &Case { id, kind: format!("a {}", hex(&b)), ops });
+        id += 1;
+    }
+    for i in 0..n_w {
+        let mut cr = r.fork();
+        let mut budget = if a.thorough { 24 } else { 10 };
+        let big = i % 40 == 0;
+        let tree = gen_node(&mut cr, if i % 97 == 0 { 30 } else { 5 }, false, big, true, &mut budget);
+        let ts = node_str(&tree);
+        let mut ops = vec![format!("write {}", ts), format!("iterwrite {}", ts)];
+        if let Ok(b) = write_tree(&tree, &mut Vec::new()) {
+            ops.push(format!("decode {}", hex(&b)));
+        }
+        let mut b2 = Vec::new();
+        if iterwrite_node(&tree, &mut b2).is_ok() {
+            ops.push(format!("decode {}", hex(&b2)));
+        }
+        out.stat("w_trees", 1);
+        run_case(&mut out, &Case { id, kind: "w".into(), ops });
+        id += 1;
+    }
+    for _ in 0..n_s {
+        let mut cr = r.fork();
+        let (name, ops) = structs::gen(&mut cr);
+        out.stat(&format!("s_{}", name), 1);
+        run_case(&mut out, &Case { id, kind: format!("s {}", name), ops });
+        id += 1;
+    }
+    out.finish()
+}
+
+fn len_bucket(n: usize) -> &'static str {
+    match n {
+        0 => "0",
+        1..=4 => "1_4",
+        5..=16 => "5_16",
+        17..=64 => "17_64",
+        65..=256 => "65_256",
+        _ => "257_up",
+    }
+}
+
+pub fn replay(a: &Args) -> String {
+    watchdog_start(&a.out);
+    install_panic_hook();
+    let text = std::fs::read_to_string(a.input.as_ref().expect("--in")).expect("read input");
+    let mut out = Out::default();
+    for c in parse_cases(&text) {
+        run_case(&mut out, &c);
+    }
+    out.finish()
 }
